@@ -14,6 +14,13 @@ GcSearch(c, lo, hi) ==                      \* binary search for the segment con
   ELSE IF c > GcTable[mid][2] THEN GcSearch(c, mid + 1, hi)
   ELSE GcTable[mid][3]
 Gc(c) == GcSearch(c, 1, Len(GcTable))
+RECURSIVE GcIdx(_, _, _)
+GcIdx(c, lo, hi) ==
+  LET mid == (lo + hi) \div 2 IN
+  IF c < GcTable[mid][1] THEN GcIdx(c, lo, mid - 1)
+  ELSE IF c > GcTable[mid][2] THEN GcIdx(c, mid + 1, hi)
+  ELSE mid
+GcSearchIdx(c) == GcIdx(c, 1, Len(GcTable))
 GcKnown(c) == Gc(c) # "Cn"                  \* assigned in 14.0 (later versions only ever assign Cn code points)
 
 Cat2 == {"Lu","Ll","Lt","Lm","Lo","Mn","Mc","Me","Nd","Nl","No","Pc","Pd","Ps","Pe","Pi","Pf","Po",
